@@ -145,20 +145,23 @@ def strip_comments(src):
 
 
 # tie T: which GenEq files (regenerated definitions = model) each property relies on
+_DRV = ["GenEq/GenEqSrcDriver", "GenEq/GenEqStrat"]
+_MIN = ["GenEq/GenEqTestcase", "GenEq/GenEqUtil", "GenEq/GenEqStrat", "GenEq/GenEqSplit",
+        "GenEq/GenEqSrcMinimize"] + _DRV
+_SPL = ["GenEq/GenEqSplit", "GenEq/GenEqSrcSplit"]
 TIES = {
-    "C03": ["GenEq/GenEqTestcase", "GenEq/GenEqUtil", "GenEq/GenEqStrat"],
-    "C04": ["GenEq/GenEqTestcase", "GenEq/GenEqUtil"],
-    "C05": ["GenEq/GenEqSplit", "GenEq/GenEqStrat"],
-    "C06": ["GenEq/GenEqSplit"],
-    "C07": ["GenEq/GenEqTestcase", "GenEq/GenEqUtil"],
-    "C08": ["GenEq/GenEqSplit"],
-    "C09": ["GenEq/GenEqTestcase", "GenEq/GenEqUtil", "GenEq/GenEqStrat"],
-    "C10": ["GenEq/GenEqTestcase", "GenEq/GenEqUtil", "GenEq/GenEqStrat"],
-    "C13": ["GenEq/GenEqTestcase", "GenEq/GenEqUtil"],
-    "C14": ["GenEq/GenEqTestcase", "GenEq/GenEqUtil", "GenEq/GenEqStrat"],
-    "C15": ["GenEq/GenEqSplit"],
-    "C16": ["GenEq/GenEqSplit"],
-    "C18": ["GenEq/GenEqStatus"],
+    "C01": _DRV, "C02": _DRV, "C11": _DRV, "C12": _DRV,
+    "C03": _MIN, "C10": _MIN, "C14": _MIN,
+    "C04": _MIN + ["GenEq/GenEqSrcPairs"],
+    "C09": _MIN + ["GenEq/GenEqSrcPairs", "GenEq/GenEqSrcCollapse"],
+    "C13": ["GenEq/GenEqTestcase", "GenEq/GenEqUtil", "GenEq/GenEqStrat", "GenEq/GenEqSplit",
+            "GenEq/GenEqSrcPairs"] + _DRV,
+    "C05": _SPL + ["GenEq/GenEqStrat", "GenEq/GenEqSrcCollapse", "GenEq/GenEqSrcMinimize", "GenEq/GenEqSrcPairs"] + _DRV,
+    "C06": _SPL, "C08": _SPL, "C15": _SPL, "C16": _SPL,
+    "C07": ["GenEq/GenEqTestcase", "GenEq/GenEqUtil", "GenEq/GenEqSplit"],
+    "C17": ["GenEq/GenEqSrcCli", "GenEq/GenEqStrat"],
+    "C18": ["GenEq/GenEqStatus", "GenEq/GenEqSrcRun"],
+    "C19": ["GenEq/GenEqSrcInterest"],
     "C20": ["GenEq/GenEqTemp"],
 }
 
